@@ -6,9 +6,11 @@
    exactly `match Spec .. with Some s => Ok s | None => Err end` - same verdict, same post-state, no panic - under the stated
    hypotheses: epc_ok (zrnt's EpochsContext agrees with the state: property C08), cfg_sane (configuration sizes),
    st_bounds (the `Bounds`: no uint64 wrap).  One line per theorem: design/C01-C03-refine.md.
-   PARTIAL: the whole-block composition `Impl.process_block = Spec.process_block` is not assembled (it needs C08's invariant
-   between operations); operations that are line-by-line transliterations (randao, eth1 vote, proposer slashing, BLS change,
-   execution payload, phase0 attestation) have no separate model and are covered by the chain-level correspondence. *)
+   The per-operation theorems are ASSEMBLED into C01_process_block_refines_partial (zrnt's ProcessBlock of every fork, in
+   zrnt's order). PARTIAL there: the stage-indexed numeric `envelope` (no uint64 wrap, room in bounded lists, C07's duplicate-free
+   committees, root comparisons deciding value equality) is a hypothesis - balances grow by rewards and by deposit amounts the
+   block chooses; the agreement of the EpochsContext with every intermediate state, all length invariants and the pubkey cache
+   are discharged from the pre-state using C08's block frame.  state_transition-level composition with process_slots is C02/C08. *)
 
 From Coq Require Import String.
 From Coq Require Import NArith ZArith List Bool.
@@ -21,6 +23,9 @@ From V Require Import Base.U64 Base.Outcome Ssz.SszCore Beacon.Config Beacon.Sch
   Beacon.Refine.BlockSlashRefine Beacon.Refine.BlockAttRefine Beacon.Refine.BlockDepositRefine
   Beacon.Refine.BlockWithdrawRefine Beacon.Refine.BlockHeaderRefine Beacon.Refine.BlockAttSlashRefine
   Beacon.Refine.BlockNonvacuous Beacon.Refine.RejectNonvacuous.
+From V Require Import Beacon.Impl.Block2Ops Beacon.Proofs.Lengths Beacon.Proofs.Stability Beacon.Proofs.EpcInv
+  Beacon.Refine.Block2Refine Beacon.Refine.Block2AttRefine Beacon.Refine.Block2Frame Beacon.Refine.Block2Carry
+  Beacon.Refine.BlockAssembly Beacon.Refine.BlockAssemblyWitness.
 Import ListNotations RecordSetNotations.
 Local Open Scope string_scope.
 Local Open Scope list_scope.
@@ -417,6 +422,281 @@ Theorem C01_sync_bad_needs_poor :
 Proof. exact sync_bad_needs_poor. Qed.
 Print Assumptions C01_sync_bad_needs_poor.
 
+(* ===================== randao, eth1 vote, BLS change, proposer slashing, indexed attestations (phase0/randao.go, eth1.go, proposer_slashing.go, indexed.go; capella/bls_to_execution.go) ===================== *)
+
+(* ProcessRandaoReveal (proposer and its pubkey from the EpochsContext, unchecked vector lookups) =
+   process_randao *)
+Theorem C01_process_randao_refines :
+  forall (E : Env) (f : fork) (st : BeaconState) (epc : BlockEpc) (body : value),
+    0 < SLOTS_PER_EPOCH (cfg E) ->
+    0 < EPOCHS_PER_HISTORICAL_VECTOR (cfg E) ->
+    N.of_nat (Datatypes.length (randao_mixes st)) = EPOCHS_PER_HISTORICAL_VECTOR (cfg E) ->
+    be_proposer epc = get_beacon_proposer_index E st ->
+    (forall i : N, be_pubkey_of epc i = option_map v_pubkey (nthN (validators st) i)) ->
+    process_randao_impl E f epc st body =
+    match process_randao E f st body with
+    | Some s => Ok s
+    | None => Err
+    end.
+Proof. exact process_randao_refines. Qed.
+Print Assumptions C01_process_randao_refines.
+
+(* votes are counted by hash-tree-root in zrnt, by value in the spec: value-equal => root-equal (a congruence,
+   nothing assumed of the hash) *)
+Theorem C01_eth1_root_congr :
+  forall (E : Env) (a b : Eth1Data), eth1_eqb a b = true -> eth1_root E a = eth1_root E b.
+Proof. exact eth1_root_congr. Qed.
+Print Assumptions C01_eth1_root_congr.
+
+(* ... and the count is the spec's count when no vote of the period collides with the new vote's root
+   (votes_no_collision: the direction that needs the hash, an explicit hypothesis) *)
+Theorem C01_votes_count_spec :
+  forall (E : Env) (votes : list Eth1Data) (d : Eth1Data),
+    votes_no_collision E votes d ->
+    votes_count_impl E votes d = N.of_nat (Datatypes.length (filter (eth1_eqb d) votes)).
+Proof. exact votes_count_spec. Qed.
+Print Assumptions C01_votes_count_spec.
+
+(* ProcessEth1Vote (full-list error, short-circuit on the number of votes, strict `>` comparisons with the
+   period) = process_eth1_data *)
+Theorem C01_process_eth1_vote_refines :
+  forall (E : Env) (f : fork) (st : BeaconState) (body : value),
+    let d := eth1_of_value (body_get E f body "eth1_data") in
+    EPOCHS_PER_ETH1_VOTING_PERIOD (cfg E) * SLOTS_PER_EPOCH (cfg E) < 2 ^ 62 ->
+    N.of_nat (Datatypes.length (eth1_data_votes st)) <
+    EPOCHS_PER_ETH1_VOTING_PERIOD (cfg E) * SLOTS_PER_EPOCH (cfg E) ->
+    votes_no_collision E (eth1_data_votes st ++ [d]) d ->
+    process_eth1_vote_impl E f st body = Ok (process_eth1_data E f st body).
+Proof. exact process_eth1_vote_refines. Qed.
+Print Assumptions C01_process_eth1_vote_refines.
+
+(* ProcessBLSToExecutionChange = process_bls_to_execution_change, for every state and operation *)
+Theorem C01_process_bls_change_refines :
+  forall (E : Env) (st : BeaconState) (sc : value),
+    process_bls_change_impl E st sc =
+    match process_bls_to_execution_change E st sc with
+    | Some s => Ok s
+    | None => Err
+    end.
+Proof. exact process_bls_change_refines. Qed.
+Print Assumptions C01_process_bls_change_refines.
+
+(* ProcessProposerSlashing (one domain for both headers, pubkey from the cache) = process_proposer_slashing *)
+Theorem C01_process_proposer_slashing_refines :
+  forall (E : Env) (f : fork) (st : BeaconState) (epc : BlockEpc) (ps : value),
+    cfg_sane E ->
+    epc_ok E st epc ->
+    st_bounds E st ->
+    N.of_nat (Datatypes.length (slashings st)) = EPOCHS_PER_SLASHINGS_VECTOR (cfg E) ->
+    process_proposer_slashing_impl E f epc st ps =
+    match process_proposer_slashing E f st ps with
+    | Some s => Ok s
+    | None => Err
+    end.
+Proof. exact process_proposer_slashing_refines. Qed.
+Print Assumptions C01_process_proposer_slashing_refines.
+
+(* ValidateIndexedAttestation (count limit, sortedness + duplicate scan, only the LAST index range-checked) =
+   is_valid_indexed_attestation *)
+Theorem C01_validate_indexed_refines :
+  forall (E : Env) (st : BeaconState) (epc : BlockEpc) (idx : list N) (data : value) (sig : bytes),
+    (forall i : N, be_pubkey_of epc i = option_map v_pubkey (nthN (validators st) i)) ->
+    N.of_nat (Datatypes.length idx) <= MAX_VALIDATORS_PER_COMMITTEE (cfg E) ->
+    validate_indexed_impl E epc st idx data sig =
+    check (is_valid_indexed_attestation E st (VCont [VSeq (map VUint idx); data; VBytes sig])).
+Proof. exact validate_indexed_refines. Qed.
+Print Assumptions C01_validate_indexed_refines.
+
+(* ===================== whole attestation, all forks (phase0.ProcessAttestation, altair.ProcessAttestation, deneb.ProcessAttestation) ===================== *)
+
+(* every member of a spec committee is a registry entry active in the committee's epoch (so
+   epc.EffectiveBalances[vi] is in range) *)
+Theorem C01_committee_members_active :
+  forall (E : Env) (st : BeaconState) (s i : N) (l : list N),
+    get_beacon_committee E st s i = Some l ->
+    forall j : N,
+    In j l ->
+    exists v : Validator,
+      nthN (validators st) j = Some v /\ is_active_validator v (compute_epoch_at_slot E s) = true.
+Proof. exact committee_members_active. Qed.
+Print Assumptions C01_committee_members_active.
+
+(* GetApplicableAttestationParticipationFlags (unchecked block-root lookups, uint64 epoch start slot) =
+   get_attestation_participation_flag_indices inside the inclusion window *)
+Theorem C01_applicable_flags_refines :
+  forall (E : Env) (f : fork) (st : BeaconState) (data : AttData),
+    cfg_sane E ->
+    vec_lens E st ->
+    slot st < 2 ^ 40 ->
+    cp_epoch (ad_target data) = compute_epoch_at_slot E (ad_slot data) ->
+    cp_epoch (ad_target data) = get_previous_epoch E st \/ cp_epoch (ad_target data) = get_current_epoch E st ->
+    ad_slot data + MIN_ATTESTATION_INCLUSION_DELAY (cfg E) <= slot st ->
+    applicable_flags_impl E f st data (slot st - ad_slot data) =
+    match get_attestation_participation_flag_indices E f st data (slot st - ad_slot data) with
+    | Some fl => Ok fl
+    | None => Err
+    end.
+Proof. exact applicable_flags_refines. Qed.
+Print Assumptions C01_applicable_flags_refines.
+
+(* ProcessAttestation = process_attestation: other check order, committee count/committee from the EpochsContext
+   (epc2_ok), uint64 window; NoDup of the committee is C07, the numerator bound is stated *)
+Theorem C01_process_attestation_refines :
+  forall (E : Env) (f : fork) (st : BeaconState) (epc2 : BlockEpc2) (att : value),
+    let bits := vbits (vfield att 0) in
+    let data := vfield att 1 in
+    cfg_sane E ->
+    epc2_ok E st epc2 ->
+    st_bounds E st ->
+    lengths_inv f st ->
+    vec_lens E st ->
+    MIN_ATTESTATION_INCLUSION_DELAY (cfg E) <= 2 ^ 20 ->
+    N.of_nat (Datatypes.length bits) <= MAX_VALIDATORS_PER_COMMITTEE (cfg E) ->
+    (forall l : list N,
+     get_beacon_committee E st (ad_slot data) (ad_index data) = Some l ->
+     NoDup l /\ N.of_nat (Datatypes.length l) * att_unit E (get_base_reward_per_increment E st) < 2 ^ 63) ->
+    (f = Phase0 ->
+     N.of_nat (Datatypes.length (current_epoch_attestations st)) <
+     MAX_ATTESTATIONS (cfg E) * SLOTS_PER_EPOCH (cfg E) /\
+     N.of_nat (Datatypes.length (previous_epoch_attestations st)) <
+     MAX_ATTESTATIONS (cfg E) * SLOTS_PER_EPOCH (cfg E)) ->
+    process_attestation_impl E f epc2 st att =
+    match process_attestation E f st att with
+    | Some s => Ok s
+    | None => Err
+    end.
+Proof. exact process_attestation_refines. Qed.
+Print Assumptions C01_process_attestation_refines.
+
+(* ===================== execution payload (bellatrix/capella/deneb ProcessExecutionPayload, bellatrix IsTransitionCompleted / IsExecutionEnabled) ===================== *)
+
+(* `merge complete` is decided by comparing hash-tree-roots in zrnt: header value-equal to the default => roots
+   equal (congruence) *)
+Theorem C01_merge_complete_congr :
+  forall (E : Env) (f : fork) (st : BeaconState),
+    is_merge_transition_complete E f st = false -> merge_complete_impl E f st = false.
+Proof. exact merge_complete_congr. Qed.
+Print Assumptions C01_merge_complete_congr.
+
+(* ... and equal to the spec's value comparison under header_root_distinct (the one pair (latest header, default
+   header) has distinct roots when the values differ: the direction that needs the hash, explicit) *)
+Theorem C01_merge_complete_refines :
+  forall (E : Env) (f : fork) (st : BeaconState),
+    header_root_distinct E f st -> merge_complete_impl E f st = is_merge_transition_complete E f st.
+Proof. exact merge_complete_refines. Qed.
+Print Assumptions C01_merge_complete_refines.
+
+(* bellatrix IsExecutionEnabled = is_execution_enabled under the two root-distinctness hypotheses *)
+Theorem C01_execution_enabled_refines :
+  forall (E : Env) (f : fork) (st : BeaconState) (body : value),
+    header_root_distinct E f st ->
+    payload_root_distinct E f body -> execution_enabled_impl E f st body = is_execution_enabled E f st body.
+Proof. exact execution_enabled_refines. Qed.
+Print Assumptions C01_execution_enabled_refines.
+
+(* spec.TimeAtSlot with its overflow guard = genesis_time + slot * SECONDS_PER_SLOT in range *)
+Theorem C01_time_at_slot_ok :
+  forall (E : Env) (s g : N),
+    0 < SECONDS_PER_SLOT (cfg E) ->
+    SECONDS_PER_SLOT (cfg E) <= 2 ^ 20 ->
+    s < 2 ^ 40 -> g < 2 ^ 63 -> time_at_slot_impl E s g = Ok (g + s * SECONDS_PER_SLOT (cfg E)).
+Proof. exact time_at_slot_ok. Qed.
+Print Assumptions C01_time_at_slot_ok.
+
+(* ProcessExecutionPayload = process_execution_payload (header conversion is the same field-by-field function on
+   both sides) *)
+Theorem C01_process_execution_payload_refines :
+  forall (E : Env) (f : fork) (st : BeaconState) (body : value),
+    0 < SLOTS_PER_EPOCH (cfg E) ->
+    0 < EPOCHS_PER_HISTORICAL_VECTOR (cfg E) ->
+    N.of_nat (Datatypes.length (randao_mixes st)) = EPOCHS_PER_HISTORICAL_VECTOR (cfg E) ->
+    0 < SECONDS_PER_SLOT (cfg E) ->
+    SECONDS_PER_SLOT (cfg E) <= 2 ^ 20 ->
+    slot st < 2 ^ 40 ->
+    genesis_time st < 2 ^ 63 ->
+    header_root_distinct E f st ->
+    process_execution_payload_impl E f st body =
+    match process_execution_payload E f st body with
+    | Some s => Ok s
+    | None => Err
+    end.
+Proof. exact process_execution_payload_refines. Qed.
+Print Assumptions C01_process_execution_payload_refines.
+
+(* ===================== carrying the context agreement through a block (uses C08: Beacon/Proofs/{Stability,EpcInv}.v) ===================== *)
+
+(* epc_ok at the pre-state + the C08 block frame + an up-to-date pubkey cache => epc_ok at the intermediate state *)
+Theorem C01_epc_ok_carry :
+  forall (E : Env) (st0 s : BeaconState) (epc0 epc : BlockEpc),
+    Config_wf (cfg E) ->
+    get_current_epoch E st0 + 1 < FAR_FUTURE_EPOCH ->
+    epc_ok E st0 epc0 -> same_but_cache epc epc0 -> block_frame E st0 s -> cache_ok s epc -> epc_ok E s epc.
+Proof. exact epc_ok_carry. Qed.
+Print Assumptions C01_epc_ok_carry.
+
+(* the same for the committee count and the committees *)
+Theorem C01_epc2_ok_carry :
+  forall (E : Env) (st0 s : BeaconState) (epc2 : BlockEpc2),
+    Config_wf (cfg E) ->
+    get_current_epoch E st0 + 1 < FAR_FUTURE_EPOCH ->
+    epc2_ok E st0 epc2 -> block_frame E st0 s -> cache_ok s (e2 epc2) -> epc2_ok E s epc2.
+Proof. exact epc2_ok_carry. Qed.
+Print Assumptions C01_epc2_ok_carry.
+
+(* PubkeyCache.AddValidator keeps the cache equal to `first registry index with that pubkey` when a deposit
+   appends a validator *)
+Theorem C01_cache_ok_add :
+  forall (s s' : BeaconState) (epc : BlockEpc) (v : Validator),
+    cache_ok s epc ->
+    validators s' = validators s ++ [v] ->
+    cache_ok s' (cache_add epc (N.of_nat (Datatypes.length (validators s))) (v_pubkey v)).
+Proof. exact cache_ok_add. Qed.
+Print Assumptions C01_cache_ok_add.
+
+(* ===================== ASSEMBLY: zrnt ProcessBlock of every fork, in zrnt's order (phase0|altair|bellatrix|capella|deneb transition.go ProcessBlock) ===================== *)
+
+(* Impl.process_block = match Spec.process_block with Some s => Ok s | None => Err. PARTIAL: `envelope` (a stage-
+   indexed set P of numerically tame states: true of the pre-state, closed under this block's own spec steps,
+   implying side_ok = st_bounds + room in bounded lists + C07 NoDup committees + root comparisons deciding value
+   equality) is a hypothesis; it is not derivable because balances grow by rewards and by deposit amounts chosen
+   by the block. Everything else (context agreement at every intermediate state, list and vector lengths, pubkey
+   cache, the Inv of the attester-slashing loop) is discharged from the pre-state *)
+Theorem C01_process_block_refines_partial :
+  forall (E : Env) (f : fork) (P : nat -> BeaconState -> Prop) (st0 : BeaconState) 
+      (epc2 : BlockEpc2) (blk : value),
+    let body := vfield blk 4 in
+    cfg_sane E ->
+    cfg_extra E ->
+    envelope E f P blk ->
+    vec_lens E st0 ->
+    epc2_ok E st0 epc2 ->
+    P 0%nat st0 ->
+    lengths_inv f st0 ->
+    block_typed E f body ->
+    process_block_impl E f epc2 st0 blk =
+    match process_block E f st0 blk with
+    | Some s => Ok s
+    | None => Err
+    end.
+Proof. exact process_block_refines_partial. Qed.
+Print Assumptions C01_process_block_refines_partial.
+
+(* every block the spec accepts is accepted by zrnt's algorithm with the same post-state *)
+Theorem C01_block_refines_partial :
+  forall (E : Env) (f : fork) (P : nat -> BeaconState -> Prop) (st0 : BeaconState) 
+      (epc2 : BlockEpc2) (blk : value) (st' : BeaconState),
+    cfg_sane E ->
+    cfg_extra E ->
+    envelope E f P blk ->
+    vec_lens E st0 ->
+    epc2_ok E st0 epc2 ->
+    P 0%nat st0 ->
+    lengths_inv f st0 ->
+    block_typed E f (vfield blk 4) ->
+    process_block E f st0 blk = Some st' -> process_block_impl E f epc2 st0 blk = Ok st'.
+Proof. exact block_refines_partial. Qed.
+Print Assumptions C01_block_refines_partial.
+
 (* ===================== PINNED SNAPSHOT (before fix: commits 74b46c6, 9bd2c6a): _refuted witnesses and what did hold ===================== *)
 
 (* altair.ProcessSyncAggregate of the snapshot, loop level: committee [1;0], bits [1;0], proposer 0 with balance
@@ -566,3 +846,24 @@ Example C01_process_deposit_refines_nonvacuous :
     end.
 Proof. exact process_deposit_refines_nonvacuous. Qed.
 Print Assumptions C01_process_deposit_refines_nonvacuous.
+
+(* ALL hypotheses of C01_process_block_refines_partial hold for a concrete altair state, context, block (randao,
+   eth1 vote, sync aggregate with a participant) and explicit envelope; the block is accepted and changes the
+   state *)
+Example C01_process_block_refines_nonvacuous :
+  cfg_sane blk_env /\
+    cfg_extra blk_env /\
+    envelope blk_env Altair aw_P aw_blk /\
+    vec_lens blk_env aw_st0 /\
+    epc2_ok blk_env aw_st0 aw_epc2 /\
+    aw_P 0 aw_st0 /\
+    lengths_inv Altair aw_st0 /\
+    block_typed blk_env Altair (vfield aw_blk 4) /\
+    match process_block_impl blk_env Altair aw_epc2 aw_st0 aw_blk with
+    | Ok s =>
+        balances s = [31999972895; 32000031622] /\
+        Datatypes.length (eth1_data_votes s) = 1%nat /\ h_slot (latest_block_header s) = 1
+    | _ => False
+    end.
+Proof. exact process_block_refines_nonvacuous. Qed.
+Print Assumptions C01_process_block_refines_nonvacuous.
